@@ -74,6 +74,8 @@ func runC19(c *Ctx) {
 	c17Selection(c)
 	// a pooled Writer is scrubbed by Reset: whatever it keeps is shared between sessions
 	c18Writer(c)
+	// a handshake must not write into its (shared) configuration
+	configReadOnlyRules(c, "C19")
 }
 
 func c19Globals(c *Ctx) {
@@ -467,6 +469,10 @@ func c19Pools(c *Ctx) {
 						why = w
 					}
 				}
+				if dbl := doublePut(call, put); dbl != "" {
+					c.R.Fail(rule, key, c.P.Pos(call.Pos()), dbl+": the same backing array is handed out to two later users, which then share memory")
+					continue
+				}
 				if ok1 {
 					c.R.OK(rule, key, c.P.Pos(call.Pos()), why)
 				} else {
@@ -655,4 +661,48 @@ func explicitPutOnAllPaths(fn *ssa.Function, get *ssa.Call, put string) (string,
 		return "put back by an explicit Put on every path, no use afterwards", true
 	}
 	return msg, false
+}
+
+// doublePut reports a path on which the pooled object v is put back twice: a
+// deferred Put together with an explicit one, two deferred ones, or an explicit
+// Put that dominates another.
+func doublePut(v *ssa.Call, put string) string {
+	var defers []*ssa.Defer
+	var calls []*ssa.Call
+	for _, r := range *v.Referrers() {
+		switch x := r.(type) {
+		case *ssa.Defer:
+			if sc := x.Call.StaticCallee(); sc != nil && sc.String() == put && len(x.Call.Args) == 1 && x.Call.Args[0] == ssa.Value(v) {
+				defers = append(defers, x)
+			}
+		case *ssa.Call:
+			if sc := x.Call.StaticCallee(); sc != nil && sc.String() == put && len(x.Call.Args) == 1 && x.Call.Args[0] == ssa.Value(v) {
+				calls = append(calls, x)
+			}
+		}
+	}
+	switch {
+	case len(defers) >= 1 && len(calls) >= 1:
+		return "the object is put back explicitly although a deferred Put of it is registered (put twice on that path)"
+	case len(defers) >= 2:
+		for i := range defers {
+			for j := range defers {
+				if i != j && defers[i].Block().Dominates(defers[j].Block()) {
+					return "two deferred Puts of the same object run on one path"
+				}
+			}
+		}
+	}
+	for i := range calls {
+		for j := range calls {
+			if i == j {
+				continue
+			}
+			bi, bj := calls[i].Block(), calls[j].Block()
+			if bi == bj && indexOf(bi, calls[i]) < indexOf(bj, calls[j]) || bi != bj && bi.Dominates(bj) {
+				return "the object is put back twice on one path"
+			}
+		}
+	}
+	return ""
 }
